@@ -47,6 +47,10 @@ type c04Case struct {
 	PartLen int      `json:"partlen,omitempty"`
 	Names2  []string `json:"names2,omitempty"`
 	Seqs2   []string `json:"seqs2,omitempty"`
+	// Warm: the object the operation is called on was first an alignment with these rows (same names and
+	// shape), answered every coordinate query in that state, and was then edited in place, residue by
+	// residue, into Seqs: the answer must be the one a fresh alignment gives
+	Warm []string `json:"warm,omitempty"`
 }
 
 const (
@@ -178,6 +182,8 @@ func c04Diff(got, want rows) string {
 type c04K struct {
 	c  *mc.Ctx
 	cs c04Case
+	// warmed: the primary alignment of a warmed case has been built
+	warmed bool
 }
 
 func (k *c04K) viol(op, clause, desc string) {
@@ -199,7 +205,75 @@ func (k *c04K) call(op, class string, f func()) bool {
 	return true
 }
 
+// c04WarmKind, when set by a task, makes every case of the task a warmed case.
+var c04WarmKind string
+
+func c04WarmOf(kind string, seqs []string) []string {
+	out := make([]string, len(seqs))
+	for i, s := range seqs {
+		b := []byte(s)
+		switch kind {
+		case "rot":
+			if len(b) > 1 {
+				b = append(b[1:len(b):len(b)], b[0])
+			}
+		case "rev":
+			for x, y := 0, len(b)-1; x < y; x, y = x+1, y-1 {
+				b[x], b[y] = b[y], b[x]
+			}
+		}
+		out[i] = string(b)
+	}
+	return out
+}
+
 func (k *c04K) build(r rows) align.Alignment {
+	if len(k.cs.Warm) == len(r) && len(r) > 0 && !k.warmed {
+		k.warmed = true
+		w := r.clone()
+		for i := range w {
+			if len(k.cs.Warm[i]) != len(r[i].Seq) {
+				k.c.Fatal("warm rows of another shape: %s", jsonStr(k.cs))
+				return nil
+			}
+			w[i].Seq = k.cs.Warm[i]
+		}
+		al, err := mkAlign(align.NUCLEOTIDS, w)
+		if err != nil {
+			k.c.Fatal("cannot build input %s: %v", jsonStr(k.cs), err)
+			return nil
+		}
+		L := len(r[0].Seq)
+		ok := k.call("warm-up", "", func() {
+			for _, x := range w {
+				for s := 0; s <= L; s++ {
+					for l := 0; s+l <= L; l++ {
+						al.RefCoordinates(x.Name, s, l)
+					}
+					al.RefSites(x.Name, []int{s})
+				}
+			}
+			for s := 0; s < L; s++ {
+				al.InverseCoordinates(s, 1)
+				al.InversePositions([]int{s})
+				al.SubAlign(s, 1)
+				al.SelectSites([]int{s})
+			}
+			al.Length()
+			al.NbSequences()
+			for i, x := range r {
+				for j := 0; j < L; j++ {
+					if e := al.SetSequenceChar(i, j, x.Seq[j]); e != nil {
+						panic("SetSequenceChar: " + e.Error())
+					}
+				}
+			}
+		})
+		if !ok {
+			return nil
+		}
+		return al
+	}
 	al, err := mkAlign(align.NUCLEOTIDS, r)
 	if err != nil {
 		k.c.Fatal("cannot build input %s: %v", jsonStr(k.cs), err)
@@ -1204,6 +1278,9 @@ func (k *c04K) diff() {
 
 func c04Check(c *mc.Ctx, cs c04Case) {
 	c.Eval()
+	if c04WarmKind != "" && cs.Warm == nil && len(cs.Seqs) > 0 {
+		cs.Warm = c04WarmOf(c04WarmKind, cs.Seqs)
+	}
 	k := &c04K{c: c, cs: cs}
 	switch cs.Op {
 	case "SubAlign":
@@ -1499,6 +1576,27 @@ func c04Tasks(tier string) []mc.Task {
 		}
 	}
 
+	// (v') the same queries on an object that was another alignment before (rows rotated by one column /
+	// reversed), answered every coordinate query in that state and was edited in place into the case's
+	// rows: caches and indexes built for the earlier content must not show
+	for _, kind := range []string{"rot", "rev"} {
+		kind := kind
+		warm := func(run func(c *mc.Ctx, seqs []string)) func(c *mc.Ctx, seqs []string) {
+			return func(c *mc.Ctx, seqs []string) {
+				c04WarmKind = kind
+				defer func() { c04WarmKind = "" }()
+				run(c, seqs)
+			}
+		}
+		for _, b := range []struct{ n, L int }{{1, 4}, {2, 3}, {2, 4}} {
+			if b.n*b.L > 6 && !thorough {
+				continue
+			}
+			ts = c04AlnTasks(ts, "warm-"+kind+"-ref", c04Alpha, b.n, b.L, min(b.n*b.L-4, pcap), warm(c04RunRef(2)))
+			ts = c04AlnTasks(ts, "warm-"+kind+"-extract", c04Alpha, b.n, b.L, min(b.n*b.L-4, pcap), warm(c04RunExtract(2)))
+		}
+	}
+
 	// (vi) Split
 	for L := 1; L <= 6; L++ {
 		for n := 1; n <= 3; n++ {
@@ -1523,7 +1621,7 @@ func init() {
 	mc.Register(&mc.Prop{
 		ID:    "C04",
 		Level: "exploration",
-		Rule: cliStreamRule[1:] + " " + "bounded-exhaustive enumeration, every case on a fresh alignment, results compared (names, row order, residues, Length()) with column picking on the model rows; alignments are all n-row alignments of the given lengths over {A,C,-} (rows named a,b,c); integer arguments range over every value of [-1, L+1]. " +
+		Rule: cliStreamRule[1:] + " " + "bounded-exhaustive enumeration, every case on a fresh alignment (and, for all 1x4 and 2x3 [thorough: 2x4] alignments, the window/list/complement/trimming/reference-coordinate cases also on an object that was first the same rows rotated by one column, resp. reversed, answered every coordinate query in that state and was edited in place residue by residue), results compared (names, row order, residues, Length()) with column picking on the model rows; alignments are all n-row alignments of the given lengths over {A,C,-} (rows named a,b,c); integer arguments range over every value of [-1, L+1]. " +
 			"(iv) n=1 L=0..4, n=2 L=0..4, n=3 L=0..3 (thorough: n=1 L<=6, n=2 L<=5, n=3 L<=4): SubAlign and InverseCoordinates for all (start,length) in [-1,L+1]^2 (the inverse windows also extracted and concatenated as subseq --reverse does, followed by a further extraction from the same alignment); SubAlign(0,k) ++ SubAlign(k,L-k) for k=0..L; TrimSequences for all sizes x both ends; SelectSites and InversePositions for all site lists of length 1..3 (n=3: 1..2) over [-1,L+1], repeats and any order. " +
 			"(v) same alignments with L>=1, every row and one unknown name as reference: RefCoordinates for all (start,length) in [-1,L+1]^2, followed by SubAlign of the returned window; RefSites for the same site lists. " +
 			"(vi) Split: n=1 L=1..6, n=2 L=1..4, n=3 L=1..2 (thorough: n=3 L=3, and n=2 L=5..6 over {A,-}) x every map of the L sites onto exactly 1, 2 or 3 blocks x 5 ways of building the PartitionSet (AddRange with runs; with greedy arithmetic progressions a-b/k, end on the last site; the same with the end extended to just before the next multiple; String() of the first re-parsed by io/partition; a partition file with the modulo forms parsed by io/partition), plus every 2-block map of L+1 sites (must be refused). " +
